@@ -239,8 +239,9 @@ def _to_stiefel_euler_real(theta, dim, rank):
             N0 = theta_i.shape[1]
             ct = torch.cos(theta_i)
             st = torch.sin(theta_i)
-            cum_st = torch.cumprod(st, dim=1)
-            rowJ = torch.concat([ct[:,:1], ct[:,1:]*cum_st[:,:-1], cum_st[:,-1:]], dim=1).reshape(batch,N0+1,1)
+            one = torch.ones(batch, 1, dtype=theta.dtype, device=theta.device)
+            cum_st = torch.concat([one, torch.cumprod(st, dim=1)], dim=1)
+            rowJ = (torch.concat([ct, one], dim=1)*cum_st).reshape(batch,N0+1,1)
             if ret is None:
                 ret = rowJ
             else:
@@ -259,8 +260,9 @@ def _to_stiefel_euler_real(theta, dim, rank):
             N0 = theta_i.shape[1]
             ct = np.cos(theta_i)
             st = np.sin(theta_i)
-            cum_st = np.cumprod(st, axis=1)
-            rowJ = np.concatenate([ct[:,:1], ct[:,1:]*cum_st[:,:-1], cum_st[:,-1:]], axis=1).reshape(batch,N0+1,1)
+            one = np.ones((batch,1), dtype=theta.dtype)
+            cum_st = np.concatenate([one, np.cumprod(st, axis=1)], axis=1)
+            rowJ = (np.concatenate([ct, one], axis=1)*cum_st).reshape(batch,N0+1,1)
             if ret is None:
                 ret = rowJ
             else:
@@ -290,13 +292,14 @@ def _to_stiefel_euler_complex(theta, dim, rank, with_phase):
     if isinstance(theta, torch.Tensor):
         for theta_i,phi_i in theta_list:
             N0 = theta_i.shape[1]
-            tmp0 = phi_i[:,:1]*0
+            tmp0 = torch.zeros(batch, 1, dtype=theta.dtype, device=theta.device)
             cum_expp = torch.exp(1j*(torch.cumsum(torch.concat([tmp0, phi_i], dim=1), dim=1) - torch.concat([phi_i, tmp0], dim=1)))
             expp = torch.exp(1j*phi_i)
             ct = torch.cos(theta_i)
             st = torch.sin(theta_i)
-            cum_st = torch.cumprod(st, dim=1)
-            rowJ = (torch.concat([ct[:,:1], ct[:,1:]*cum_st[:,:-1], cum_st[:,-1:]],dim=1)*cum_expp).reshape(batch,N0+1,1)
+            one = torch.ones(batch, 1, dtype=theta.dtype, device=theta.device)
+            cum_st = torch.concat([one, torch.cumprod(st, dim=1)], dim=1)
+            rowJ = (torch.concat([ct, one], dim=1)*cum_st*cum_expp).reshape(batch,N0+1,1)
             if ret is None:
                 ret = rowJ
             else:
@@ -320,8 +323,9 @@ def _to_stiefel_euler_complex(theta, dim, rank, with_phase):
             expp = np.exp(1j*phi_i)
             ct = np.cos(theta_i)
             st = np.sin(theta_i)
-            cum_st = np.cumprod(st, axis=1)
-            rowJ = (np.concatenate([ct[:,:1], ct[:,1:]*cum_st[:,:-1], cum_st[:,-1:]],axis=1)*cum_expp).reshape(batch,N0+1,1)
+            one = np.ones((batch,1), dtype=theta.dtype)
+            cum_st = np.concatenate([one, np.cumprod(st, axis=1)], axis=1)
+            rowJ = (np.concatenate([ct, one], axis=1)*cum_st*cum_expp).reshape(batch,N0+1,1)
             if ret is None:
                 ret = rowJ
             else:
